@@ -138,6 +138,40 @@ fn main() -> ExitCode {
                 }
             }
         }
+        Some("usepath") => {
+            // `use a.b.f;` at the top level, where f lives in module b inside module a (C18)
+            let lib = roto::library! {
+                mod a {
+                    mod b {
+                        fn f() -> u32 { 7 }
+                    }
+                }
+                use a::b::f;
+            };
+            match Runtime::from_lib(lib) {
+                Err(e) => Ok(format!("registration-error: {e}")),
+                Ok(rt) => {
+                    let path = a.get(2).cloned().unwrap_or_default();
+                    match tree(&path).compile(&rt) {
+                        Err(e) => Ok(format!("registered, but script does not compile:\n{e}")),
+                        Ok(mut pkg) => match pkg.get_function::<fn() -> u32>("main") {
+                            Ok(f) => Ok(format!("{:?}", f.call())),
+                            Err(e) => Err(e.to_string()),
+                        },
+                    }
+                }
+            }
+        }
+        Some("emptyuse") => {
+            // a use declaration with an empty path must be a registration error, not a panic (C18)
+            let u = roto::Use::new(vec![vec![]], roto::location!());
+            let mut lib = roto::Library::new();
+            lib.add(u.into());
+            match Runtime::from_lib(lib) {
+                Err(e) => Ok(format!("registration-error: {e}")),
+                Ok(_) => Ok("registered".to_string()),
+            }
+        }
         Some("listeq") => {
             let x = roto::List::<i32>::from([1, 2, 3]);
             let y = roto::List::<i32>::from([1, 2, 3]);
